@@ -619,7 +619,11 @@ def ones(shape, dtype=float):
 def full(shape, fill_value, dtype=None):
     out = _np.empty(_shape(shape), dtype=object)
     out[...] = fill_value
-    return SymArray(out, dtype if dtype is not None else (_F8 if isinstance(fill_value, float) else None))
+    if dtype is None and isinstance(fill_value, str):
+        dtype = _np.array(fill_value).dtype            # fixed-width text array sized for the fill value ('<U<len>')
+    elif dtype is None and isinstance(fill_value, (int, _np.integer)) and not isinstance(fill_value, bool):
+        dtype = _I8
+    return SymArray(out, _np.dtype(dtype) if dtype is not None else (_F8 if isinstance(fill_value, float) else None))
 
 
 def empty(shape, dtype=float):
